@@ -5,4 +5,5 @@ import engcommon
 ID = "C06"
 HARNESS = "c06_harness"
 COQ_TARGETS = engcommon.COQ_BASE + ["Props/C06.vo"]
-DEV = True    # until Props/C06.v exists
+DEV = True
+FAST = 6
